@@ -391,3 +391,61 @@ func TestC06(t *testing.T) {
 		Col.CaseN(p.Hash(), st.runs, st.hit, st.samples, st.labels)
 	})
 }
+
+func TestC03(t *testing.T) {
+	Col.SetProp("C03", "free-running collection (in-memory, mossStore, application lower level; MaxPreMergerBatches 1-3 so that writers block; optional MaxDirtyOps/Bytes); 1-4 writers with disjoint key prefixes execute 1-40 batches each: batch i sets the writer's marker to i and Sets/Dels a generated subset of its keys, in the top level and in 0-2 child collections; 1-3 snapshot readers and a Collection.Get reader run concurrently; generated perturbation vector (Gosched / micro-sleeps at OnEvent and file-operation points) and GOMAXPROCS in {2,4,16}. Oracle per snapshot and writer: read the marker m, then ALL of that writer's keys at every level - they must equal the precomputed state after exactly m batches; m never decreases between successive snapshots of a reader; m >= the number of batches whose ExecuteBatch had returned before the snapshot (or Get) started. Non-trivial: a run in which some snapshot observed a strict intermediate prefix while at least one merger cycle completed. Distinct = distinct program hash (schedules are sampled, not enumerated).")
+	cs := &ConcSpec{Prop: "C03", Children: true}
+	rapid.Check(t, func(rt *rapid.T) {
+		p := genConc(rt, cs)
+		r := RunConc(rt, p)
+		r.labels["backing:"+p.Cfg.Backing]++
+		Col.AddExtra("snapshots_checked", r.snapshots)
+		Col.AddExtra("snapshots_with_intermediate_prefix", r.intermediate)
+		Col.Case(p.Hash(), func() string { return p.Cfg.String() + " " + clip(string(p.Extra), 700) }, r.intermediate > 0 && r.mergerCycles > 0, r.labels, 0)
+	})
+}
+
+func TestC16(t *testing.T) {
+	Col.SetProp("C16", "two kinds of cases. (a) free-running: writers (disjoint keys), snapshot and Get readers, synchronous NotifyMerger callers, MaxPreMergerBatches 1-3, small MaxDirtyOps/Bytes, application lower level that is slow / failing / stalls once, perturbation vector; Close is called after a generated number of batches returned; every call runs under a watchdog (a call that does not return within the stall bound is the violation); writers blocked at Close must return ErrClosed (or nil if admitted before); after Close returned NewBatch, Snapshot, Get return ErrClosed and a synchronous NotifyMerger returns. (b) deterministic admission bound: with the merger parked by the controller, MaxPreMergerBatches + k non-empty batches are issued concurrently; at most MaxPreMergerBatches may return, the others must be counted in TotExecuteBatchWaitBeg, and all return once the merger is released. Non-trivial: at Close time a writer was provably blocked on back-pressure or the persister was inside the lower level, or the admission bound was exercised. Distinct = distinct program hash.")
+	cs := &ConcSpec{Prop: "C16", Close: true, Notifiers: true, SlowLL: true}
+	spec := &GenSpec{Prop: "C16", Backings: []string{"mem", "store", "ll"}, Children: true}
+	rapid.Check(t, func(rt *rapid.T) {
+		var p *Program
+		if chance(rt, "admission", 30) {
+			p = &Program{Prop: "C16"}
+			p.Cfg = genConfig(rt, spec)
+			p.Cfg.MaxPreMergerBatches = rapid.SampledFrom([]int{1, 2, 3}).Draw(rt, "maxPreMerger")
+			g := &genState{spec: spec, model: NewNode(), deadKids: map[string]bool{}}
+			g.keys = genKeyPool(rt, false, 6)
+			p.Ops = append(p.Ops, Op{Kind: "admission"})
+			n := p.Cfg.MaxPreMergerBatches + rapid.IntRange(1, 4).Draw(rt, "extra")
+			for i := 0; i < n; i++ {
+				b := g.nextBatch(rt)
+				if batchIsNoop(b) {
+					b = &Batch{Ops: []KV{{Op: OpSet, K: []byte("a"), V: []byte("x")}}}
+				}
+				p.Ops = append(p.Ops, Op{Kind: "batch", B: b})
+			}
+		} else {
+			p = genConc(rt, cs)
+		}
+		r := RunC16(rt, p)
+		r.labels["backing:"+p.Cfg.Backing]++
+		Col.Case(p.Hash(), func() string { return p.Compact() + " " + clip(string(p.Extra), 500) }, r.blockedAtClose, r.labels, 0)
+	})
+}
+
+func TestC17(t *testing.T) {
+	Col.SetProp("C17", "the concurrent programs of C03 and C16 (writers on disjoint keys with child batches, snapshot readers, Collection.Get reader, synchronous notifiers, optional Close at a generated point) plus pollers calling Stats, Histograms, Options, Store.Stats, Store.Histograms, Store.Snapshot and running iterators across merger hand-overs; option grid DeferredSort x CachePersisted x compaction concern x child collections x backing; the test binary is built with -race and any 'WARNING: DATA RACE' report fails the run (the journalled program and the report become the replay). Non-trivial: readers overlapped at least one completed merger cycle and (with a lower level) one completed persistence round. Distinct = distinct program hash (schedules are sampled).")
+	rapid.Check(t, func(rt *rapid.T) {
+		cs := &ConcSpec{Prop: "C17", Pollers: true, Notifiers: true, Children: true, SlowLL: true, Close: chance(rt, "withclose", 30)}
+		p := genConc(rt, cs)
+		r := RunConc(rt, p)
+		r.labels["backing:"+p.Cfg.Backing]++
+		if p.Cfg.DeferredSort {
+			r.labels["deferredSort"]++
+		}
+		nt := r.mergerCycles > 0 && (p.Cfg.Backing == "mem" || r.rounds > 0) && r.snapshots > 0
+		Col.Case(p.Hash(), func() string { return p.Cfg.String() + " " + clip(string(p.Extra), 500) }, nt, r.labels, 0)
+	})
+}
